@@ -261,7 +261,7 @@ class Gen:
             b = self.seq(depth, lead)
             if self.p('pred'):
                 self.num += 1
-                pr = ('pred', rng.choice(['t', self.num]))
+                pr = ('pred', 't' if self.o.get('pred_true_only') else rng.choice(['t', self.num]))
                 b = ('cat', [pr] + (b[1] if b[0] == 'cat' else [b]))
                 self.g.features.add('pred')
             branches.append(b)
